@@ -47,7 +47,7 @@ pub fn configs(thorough: bool) -> Vec<(usize, usize, SetKind, usize)> {
     for (i, &c) in cmds.iter().enumerate() {
         for (j, &h) in hists.iter().enumerate() {
             let set = [SetKind::FixA, SetKind::Raw, SetKind::FixU, SetKind::FixG][(i + j) % 4];
-            v.push((c, h, set, (i + 2 * j) % PROMPTS.len()));
+            v.push((c, h, set, (i + 2 * j) % crate::rig::SMALL_PROMPTS));
         }
     }
     v
